@@ -22,6 +22,7 @@ ASSUMPTIONS = [
     "creation time compared as an instant parsed from the ISO string (format details not asserted)",
 ]
 BUDGET = {"quick": 90, "thorough": 1200}
+JOBS = {"quick": 4, "thorough": 16}
 
 
 @st.composite
@@ -39,7 +40,7 @@ def cases(draw):
 
 
 def plan(tier):
-    n = 300 if tier == "quick" else 50000
+    n = 1000 if tier == "quick" else 50000
     return [{"kind": "hyp", "name": "volume-directories", "strategy": cases(), "examples": n}]
 
 
